@@ -6,6 +6,9 @@ CHECKS = {
  "C01": ("model_checking", "deviation-bounded exhaustive DFS (E1) over structure generators + complete menu of structure-aware byte operators + exhaustive short-string walk (E3); every execution runs the real parser and serialiser",
          "All encodings within 2 (thorough 3) deviations of a valid structure, each expanded by every single structure-aware mutation, and all strings over reduced alphabets up to length 6-7 for the small parsers, are parsed by the real code; for every accepted input the serialisation is compared with the consumed bytes. Exhaustive inside the stated bounds.",
          "Small-scope hypothesis: a defect needing more simultaneous deviations than the bound, or byte values outside the menus, is not seen. Acceptance rule for error-list parsers as stated in DESIGN.md."),
+ "C02": ("model_checking", "deviation-bounded exhaustive DFS (E1) over legal model values of an independent reference model; every model trace is replayed against the implementation in both directions (model bytes -> real parser -> accessors; real constructors -> bytes -> reference decoder)",
+         "Every model value within 2 (thorough 3) legal variations of the default of every structure is emitted by the independent model and validated against the real parser, and pushed through the real constructors and validated by the independent strict decoder. A consistent read/write-side change (swapped fields, moved key, dropped prefix) is caught because the reference shares no code with the library.",
+         "Trusts refmodel (written from the 0.9.67 layouts; MetaLeaseSet per the repository's documented layout). Known findings: LEASESET2_MIN_SIZE / META_LEASESET_MIN_SIZE."),
  "C03": ("model_checking", "same exhaustive input space as C01 with truncation at every offset and appended-byte menus; oracles: suffix remainder, reference-decoder extent, append invariance, no accepted proper prefix",
          "Every cut point of every base within the deviation bound, every appended byte for small structures, and the mutation menu; consumed length compared against an independent strict decoder (refmodel).",
          "refmodel strict decoders define the declared extent; known finding: RouterInfo peer_size != 0."),
